@@ -609,7 +609,96 @@ def g_lifecycle(rng, n, ctx):
     return out
 
 
+# ---- BEGIN pl15: nxslib/thread.py (ThreadCommon) with the event / thread / callback stubs of the prelude ----
+def g_worker(rng, n, ctx):
+    """ThreadCommon (thread.py, the real class; `nxslib.thread.threading` rebound to the prelude's SimEvent /
+    SimThread): every sequence of thread_start / thread_stop up to length 5 from every parked worker state
+    (no handle, created, each line of _thread_loop, done), random long histories (queries, parking, scripted
+    flag, _thread_loop run sequentially, failing callbacks), and the constructor on good and bad arguments;
+    the view (flag, script, handle state / name / joins / target, recorded calls) is compared after every call."""
+    import itertools
+    import types
+    import nxslib.thread as thm
+    P = prelude_py
+    out = []
+    BOUND = pyl.RawSx("(bi $bound _thread_loop)")
+
+    def canon(v, w):
+        if isinstance(v, types.MethodType):
+            if v.__self__ is w and v.__func__ is thm.ThreadCommon._thread_loop:
+                return BOUND
+            raise pyl.NotRepresentable("method")
+        if isinstance(v, list):
+            return [canon(x, w) for x in v]
+        return v
+
+    def cb_sx(cb):
+        return "N" if cb is None else pyl.sx(cb)
+
+    def build(has_init, has_final, name):
+        return thm.ThreadCommon(P.SimCb(), P.SimCb() if has_init else None, P.SimCb() if has_final else None, name)
+
+    def history(has_init, has_final, name, ops, label):
+        def run():
+            w = build(has_init, has_final, name)
+            return canon(P.worker_run(w, copy.deepcopy(ops)), w)
+        w0 = build(has_init, has_final, name)
+        wsx = pyl.RawSx("(o ThreadCommon (_target %s) (_init %s) (_final %s) (_thrd N) (_stop_flag %s) (_name %s))" % (
+            cb_sx(w0._target), cb_sx(w0._init), cb_sx(w0._final), pyl.sx(w0._stop_flag), pyl.sx(name)))
+        out.append((pyl.fn_cmd("worker_run", [wsx, ops], fuel=120), pyl.impl_result(run), label))
+
+    saved = thm.threading
+    thm.threading = types.SimpleNamespace(Event=P.SimEvent, Thread=P.SimThread)
+    try:
+        # 1. exhaustive: start/stop sequences up to length 5 from every parked state
+        parks = [[]] + [[["start"], ["park", st]] for st in ["created", "init", "test", "target", "final", "done"]]
+        for pre in parks:
+            for k in range(1, 6):
+                for seq in itertools.product(["start", "stop"], repeat=k):
+                    history(True, True, "w", pre + [[x] for x in seq], "start/stop sequences")
+        # 2. random long histories
+        for _ in range(n):
+            ops = []
+            for _ in range(rng.randrange(5, 40)):
+                r = rng.random()
+                if r < 0.22:
+                    ops.append(["start"])
+                elif r < 0.44:
+                    ops.append(["stop"])
+                elif r < 0.52:
+                    ops.append(["alive"])
+                elif r < 0.57:
+                    ops.append([rng.choice(["stop_set", "is_set", "clear"])])
+                elif r < 0.72:
+                    ops.append(["park", rng.choice(["created", "init", "test", "target", "final", "done"])])
+                elif r < 0.84:
+                    k = rng.randrange(0, 12)
+                    tail = rng.choice([[True], [True, False, True], [True] + [rng.random() < 0.5 for _ in range(3)]])
+                    ops.append(["script", [False] * k + tail])
+                    if rng.random() < 0.8:
+                        ops.append(["loop"])
+                elif r < 0.92:
+                    ops.append(["fail", rng.randrange(3), rng.randrange(0, 4)])
+                else:
+                    ops.append(["stop_set"])
+                    ops.append(["loop"])          # exhausted script: the flag itself answers
+            history(rng.random() < 0.7, rng.random() < 0.7, rng.choice([None, "w", "nxs-thread"]), ops, "worker history")
+        # 3. the constructor and its assertions
+        for _ in range(max(8, n // 2)):
+            args = [rng.choice([P.SimCb()] * 16 + [None, 5, "x", 0]),
+                    rng.choice([None, P.SimCb()] * 8 + [0, 7, "", "f"]),
+                    rng.choice([None, P.SimCb()] * 8 + [0, 7, "", "f"]),
+                    rng.choice([None, "w"])]
+            out.append((pyl.fn_cmd("worker_new", args, fuel=20), pyl.impl_result(P.worker_new, *copy.deepcopy(args)),
+                        "ThreadCommon()"))
+    finally:
+        thm.threading = saved
+    return out
+# ---- END pl15 ----
+
+
 GROUPS = {
+    "worker": g_worker,
     "lifecycle": g_lifecycle,
     "handshake": g_handshake,
     "config": g_config,
